@@ -264,6 +264,13 @@ pub fn mutate_cert(b: &[u8], other: &[u8]) -> Option<(Vec<u8>, &'static str)> {
             wire::put_u64(&mut v, h.sig_off + 96, nb);
             "cert-bitmask-length"
         }
+        5 if kernel::choose(M, 2) == 1 => {
+            // sig + T with T in the cofactor subgroup: on the curve, outside G1. The pairing cannot
+            // tell sig and sig + T apart; only the subgroup check rejects these signature bytes.
+            let Some(alt) = add_cofactor_point(&v[h.sig_off..h.sig_off + 96], 1 + kernel::choose(M, 5) as u8) else { return None };
+            v[h.sig_off..h.sig_off + 96].copy_from_slice(&alt);
+            "cert-signature-plus-cofactor-point"
+        }
         5 => {
             v[h.sig_off + kernel::choose(M, 96) as usize] ^= 1 << kernel::choose(M, 8);
             "cert-signature-bytes"
@@ -777,4 +784,52 @@ pub fn c19_wire(max_validators: usize) -> WorldOutcome {
     }
     kernel::fingerprint(&format!("{what}:{sizes:?}"));
     WorldOutcome { nontrivial: true, sample: json!({"kind": what, "encoded_sizes": sizes}), virt_ms: 0 }
+}
+
+/// Returns the uncompressed encoding of `sig + k * r * P` (`P` = the curve point with x = 4, `r` = the
+/// order of G1): a point on the curve that is not in the prime-order subgroup.
+fn add_cofactor_point(sig_bytes: &[u8], k: u8) -> Option<[u8; 96]> {
+    use blst::{BLST_ERROR, blst_p1, blst_p1_add_or_double, blst_p1_affine, blst_p1_deserialize, blst_p1_from_affine, blst_p1_in_g1, blst_p1_is_inf, blst_p1_mult, blst_p1_serialize, blst_p1_uncompress};
+    const R_BE: [u8; 32] = [
+        0x73, 0xed, 0xa7, 0x53, 0x29, 0x9d, 0x7d, 0x48, 0x33, 0x39, 0xd8, 0x08, 0x09, 0xa1, 0xd8, 0x05, 0x53, 0xbd, 0xa4, 0x02, 0xff, 0xfe, 0x5b, 0xfe, 0xff, 0xff, 0xff, 0xff, 0x00, 0x00,
+        0x00, 0x01,
+    ];
+    if sig_bytes.len() != 96 {
+        return None;
+    }
+    let mut compressed = [0u8; 48];
+    compressed[0] = 0x80;
+    compressed[47] = 4;
+    let mut out = [0u8; 96];
+    // SAFETY: plain FFI calls on properly sized, initialised buffers (same calls as blst's own API makes).
+    unsafe {
+        let mut p_aff = blst_p1_affine::default();
+        if blst_p1_uncompress(&mut p_aff, compressed.as_ptr()) != BLST_ERROR::BLST_SUCCESS {
+            return None;
+        }
+        let mut p = blst_p1::default();
+        blst_p1_from_affine(&mut p, &p_aff);
+        let mut r_le = R_BE;
+        r_le.reverse();
+        let mut t = blst_p1::default();
+        blst_p1_mult(&mut t, &p, r_le.as_ptr(), 255);
+        let mut kt = blst_p1::default();
+        blst_p1_mult(&mut kt, &t, [k].as_ptr(), 8);
+        if blst_p1_is_inf(&kt) || blst_p1_in_g1(&kt) {
+            return None;
+        }
+        let mut sig_aff = blst_p1_affine::default();
+        if blst_p1_deserialize(&mut sig_aff, sig_bytes.as_ptr()) != BLST_ERROR::BLST_SUCCESS {
+            return None;
+        }
+        let mut sig = blst_p1::default();
+        blst_p1_from_affine(&mut sig, &sig_aff);
+        let mut sum = blst_p1::default();
+        blst_p1_add_or_double(&mut sum, &sig, &kt);
+        if blst_p1_in_g1(&sum) {
+            return None;
+        }
+        blst_p1_serialize(out.as_mut_ptr(), &sum);
+    }
+    Some(out)
 }
